@@ -220,7 +220,8 @@ func ExecuteScenario(env *Env, sc *Scenario) (out *Outcome, err error) {
 	if err := sc.Module.Materialise(mroot); err != nil {
 		return nil, infra("materialise: %v", err)
 	}
-	setup := &Exec{Env: env, Sc: sc, Variant: "setup", Root: mroot, Model: NewCacheModel()}
+	// every execution works on its own copy of the scenario: ops such as retag change the module spec
+	setup := &Exec{Env: env, Sc: cloneScenario(sc), Variant: "setup", Root: mroot, Model: NewCacheModel()}
 	if err := setup.RunOps(sc.Setup); err != nil {
 		setup.Close()
 		return nil, err
@@ -252,8 +253,11 @@ func ExecuteScenario(env *Env, sc *Scenario) (out *Outcome, err error) {
 				return nil, infra("copy world: %v", err)
 			}
 		}
-		x := &Exec{Env: env, Sc: sc, Variant: v.Name, Root: vroot, Model: setup.Model.Clone(), loadBroken: setup.loadBroken}
+		x := &Exec{Env: env, Sc: cloneScenario(setup.Sc), Variant: v.Name, Root: vroot, Model: setup.Model.Clone(), loadBroken: setup.loadBroken, touches: setup.touches}
 		err := x.RunOps(v.Ops)
+		if err == nil && sc.UniformGens {
+			x.checkFinalState()
+		}
 		x.Close()
 		if err != nil {
 			return nil, err
@@ -303,17 +307,16 @@ func ExecuteScenario(env *Env, sc *Scenario) (out *Outcome, err error) {
 				continue
 			}
 			executed := map[string]bool{}
-			ok := true
-			for _, st := range results[vi].x.Steps {
-				if st.Resp == nil || st.Resp.ExecErr != "" || st.Resp.LoadErr != "" {
-					ok = false
-				}
-				for p := range st.Executed {
-					executed[p] = true
-				}
-			}
-			if !ok {
+			steps := results[vi].x.Steps
+			if len(steps) == 0 {
 				continue
+			}
+			last := steps[len(steps)-1] // earlier steps of the variant (a failing run) only prepare process state
+			if last.Resp == nil || last.Resp.ExecErr != "" || last.Resp.LoadErr != "" {
+				continue
+			}
+			for p := range last.Executed {
+				executed[p] = true
 			}
 			for pi, avi := range alone {
 				if !executed[sc.Module.ImportPath(pi)] {
